@@ -123,6 +123,8 @@ type Prop struct {
 	Components map[string]string
 	// NoInProcessMinimise: signature needs a fresh process (race detector).
 	FreshProcessOnly bool
+	// Focus files (for the coverage report)
+	Focus []string
 }
 
 // Record is a replay file / violation record.
@@ -188,6 +190,10 @@ type Summary struct {
 	// NextRun < job.To: the worker stopped early to shed leaked state (goroutines
 	// of deadlocked bubbles cannot be killed); the driver continues in a fresh process.
 	NextRun int64 `json:"next_run"`
+	// yield sites at which some task was actually parked and another task then ran
+	PreemptSites []int32 `json:"preempt_sites"`
+	FocusSites   int     `json:"focus_sites_total"`
+	YieldSites   int     `json:"yield_sites_total"`
 }
 
 // RunBubble executes one simulated run inside a synctest bubble.
@@ -378,6 +384,7 @@ func search(t *testing.T, p *Prop, job *Job, emit func(any), tick func()) {
 	sum := &Summary{Type: "summary", Outcomes: map[string]int64{}, Probes: map[string]int64{}, Faults: map[string]int64{},
 		SigCounts: map[string]int64{}, DetHashes: map[string]string{}, GoMaxProcs: runtime.GOMAXPROCS(0), Components: p.Components}
 	inter := map[uint64]struct{}{}
+	preempt := map[int32]struct{}{}
 	known := map[string]bool{}
 	for _, k := range job.Known {
 		known[k] = true
@@ -430,6 +437,11 @@ func search(t *testing.T, p *Prop, job *Job, emit func(any), tick func()) {
 			sum.FocusPre += o.Res.FocusPreempts
 			sum.SimTimeNs += int64(o.Res.SimTime)
 			sum.Outcomes[o.Res.Outcome]++
+			for k, e := range o.Res.Trace {
+				if e.Site >= 0 && k+1 < len(o.Res.Trace) && o.Res.Trace[k+1].Task != e.Task && len(preempt) < 20000 {
+					preempt[e.Site] = struct{}{}
+				}
+			}
 			sum.MapCalls += o.Res.MapCalls
 			sum.MapPermuted += o.Res.MapPermuted
 			if o.NonTrivial {
@@ -499,6 +511,14 @@ func search(t *testing.T, p *Prop, job *Job, emit func(any), tick func()) {
 		sum.Interleave = append(sum.Interleave, fmt.Sprintf("%016x", k))
 	}
 	sort.Strings(sum.Interleave)
+	for k := range preempt {
+		sum.PreemptSites = append(sum.PreemptSites, k)
+	}
+	sort.Slice(sum.PreemptSites, func(i, j int) bool { return sum.PreemptSites[i] < sum.PreemptSites[j] })
+	sum.YieldSites = len(verifsim.SiteFile)
+	if p.Focus != nil {
+		sum.FocusSites = verifsim.FocusSiteCount(p.Focus)
+	}
 	sum.WallS = time.Since(t0).Seconds()
 	sum.Completed = true
 	emit(sum)
